@@ -2,6 +2,7 @@ package checks
 
 import (
 	"fmt"
+	"strings"
 	"reflect"
 
 	"verifharness/explore"
@@ -22,6 +23,8 @@ type c09Cfg struct {
 	MaxL  int  `json:"max_len"`
 	// Sparse: two grouping columns where a column may be missing: (a,a), (a,missing), (missing,a)
 	Sparse bool `json:"sparse_keys,omitempty"`
+	// Func: the second grouping column is the function expression upper(k2) behind the bare column k
+	Func bool `json:"function_key,omitempty"`
 	// Mixed: one key value arrives as text and as a number with the same spelling ("7", 7); whether these are one
 	// key or two is not fixed by the property, but the windowing and the aggregation must agree on it
 	Mixed bool `json:"mixed_spelling,omitempty"`
@@ -52,6 +55,7 @@ func c09Configs(tier string) []c09Cfg {
 			out = append(out, c09Cfg{N: n, Cols: 2, Eager: eager, MaxL: maxL, Sparse: true})
 		}
 		out = append(out, c09Cfg{N: n, Cols: 1, Eager: true, MaxL: maxL - 1, Mixed: true})
+		out = append(out, c09Cfg{N: n, Cols: 2, Eager: true, MaxL: maxL - 1, Func: true})
 		out = append(out, c09Cfg{N: n, Cols: 1, Eager: true, MaxL: maxL - 1, GapMs: 1500})
 		out = append(out, c09Cfg{N: n, Cols: 1, Eager: true, MaxL: maxL - 1, GapMs: 1500, TTL: "1m"})
 		out = append(out, c09Cfg{N: n, Cols: 1, Eager: true, MaxL: maxL - 1, GapMs: 25000, TTL: "1m"})
@@ -111,6 +115,9 @@ func c09SQL(cfg c09Cfg) string {
 	with := ""
 	if cfg.TTL != "" {
 		with = " WITH (STATETTL='" + cfg.TTL + "')"
+	}
+	if cfg.Func {
+		return fmt.Sprintf("SELECT k, upper(k2) AS k2, count(*) AS c, collect(id) AS ids, first_value(id) AS f, last_value(id) AS l FROM stream GROUP BY k, upper(k2), CountingWindow(%d)", cfg.N) + with
 	}
 	if cfg.Cols == 2 {
 		return fmt.Sprintf("SELECT k, k2, count(*) AS c, collect(id) AS ids, first_value(id) AS f, last_value(id) AS l FROM stream GROUP BY k, k2, CountingWindow(%d)", cfg.N) + with
@@ -180,7 +187,11 @@ func c09CompareMapped(cfg c09Cfg, seq []int, batches []Batch, merge map[int]int)
 		for _, r := range b {
 			ki := -1
 			for i, k := range keys {
-				if r["k"] == k["k"] && (cfg.Cols == 1 || r["k2"] == k["k2"]) {
+				k2 := k["k2"]
+				if s2, ok := k2.(string); ok && cfg.Func {
+					k2 = strings.ToUpper(s2)
+				}
+				if r["k"] == k["k"] && (cfg.Cols == 1 || r["k2"] == k2) {
 					ki = i
 					if y, ok := merge[i]; ok {
 						ki = y
